@@ -384,6 +384,11 @@ func (e *Env) extrasGate(name string) {
 			ok = false
 			why = "`return " + r.results[0] + "` is reachable under `" + r.cond + "`, which does not require r.Extras"
 		}
+		// … and reachable with Extras on (a gate that always returns nil restores nothing)
+		if dead, dec2 := unsatWith(orTrue(r.cond), "r.Extras"); dec2 && dead {
+			ok = false
+			why = "`return " + r.results[0] + "` is unreachable (`" + r.cond + "` cannot hold): with Extras on nothing is restored either"
+		}
 	}
 	e.Run.Check("R-OBJ", name+": objects and scopes are restored only with Extras", e.Prog.Pos(fd.Pos()), ok && nonNil > 0, "nothing but nil may be returned while r.Extras is false; "+why)
 }
